@@ -65,8 +65,8 @@ func (wellFormed) Step(c *StepCtx) {
 		}
 	}
 }
-func (wellFormed) Key(*strings.Builder)      {}
-func (w wellFormed) Clone(*worker) Monitor   { return w }
+func (wellFormed) Key(*strings.Builder)    {}
+func (w wellFormed) Clone(*worker) Monitor { return w }
 
 // ---------------------------------------------------------------- C01 receiver + quiescence
 
